@@ -48,10 +48,26 @@ func c06Scenario(c *choice.Ctx, rep *report.R, prop string, nCalls, depth int) {
 	var serial byte
 	var trace []string
 	stallNext := false
+	lateScripted := false
+	armedOnce := false
+	cancelOnSetup := false
 	d.OnConn = func(impl, peer *env.End) {
 		if stallNext {
 			impl.Stall()
 			stallNext = false
+		}
+		if cancelOnSetup {
+			cancelOnSetup = false
+			// the caller that is waiting for this connection gives up while the transport is still setting it up
+			impl.OnAddr = func() {
+				for i := len(calls) - 1; i >= 0; i-- {
+					if calls[i].started && !calls[i].done && !calls[i].canceled {
+						calls[i].canceled = true
+						calls[i].cancel()
+						return
+					}
+				}
+			}
 		}
 	}
 	fail := func(sig, msg string) {
@@ -177,6 +193,26 @@ func c06Scenario(c *choice.Ctx, rep *report.R, prop string, nCalls, depth int) {
 		if !stallNext {
 			menu = append(menu, event{name: "stall-next-conn", fault: true, do: func() { stallNext = true }})
 		}
+		if !armedOnce {
+			menu = append(menu, event{name: "cancel-during-next-conn-setup", fault: true, do: func() { armedOnce = true; cancelOnSetup = true }})
+		}
+		if !lateScripted {
+			menu = append(menu, event{name: "next-dial-late", fault: true, do: func() { lateScripted = true; d.Script(env.DialLate) }})
+		}
+		if d.Pending() > 0 {
+			menu = append(menu, event{name: "dial-completes", do: func() { d.Release(true) }})
+			// the caller gives up in the very instant its dial completes
+			for _, cl := range calls {
+				cl := cl
+				if cl.inflight() && !cl.canceled {
+					menu = append(menu, event{name: fmt.Sprintf("dial-completes+cancel%d", cl.idx), fault: true, do: func() {
+						cl.canceled = true
+						d.Release(true)
+						cl.cancel()
+					}})
+				}
+			}
+		}
 		for _, cl := range calls {
 			cl := cl
 			if cl.inflight() && !cl.canceled {
@@ -240,7 +276,7 @@ func TestVerifC06(t *testing.T) {
 	bound := report.ParamInt("FAULTS", 2)
 	nCalls := report.ParamInt("CALLS", 3)
 	rep.Rule = fmt.Sprintf("E3: real ReuseConnTransport over scripted dialer/peer in a synctest bubble; %d exchanges started in index order; events {reply whole, reply in two segments (cut inside the prefix or mid body) + rest, abort mid-reply, "+
-		"FIN instead of reply, FIN while idle, stall the next write (existing or next connection) + commit, cancel, advance 2s/6s/10s (caller deadline, I/O deadline, idle time-out)}; all orders to depth %d with <=%d faults; "+
+		"FIN instead of reply, FIN while idle, stall the next write (existing or next connection) + commit, late dial + completion (also simultaneous with the caller's cancellation), caller cancelled while its new connection is being set up, cancel, advance 2s/6s/10s (caller deadline, I/O deadline, idle time-out)}; all orders to depth %d with <=%d faults; "+
 		"oracle after every event: per connection #queries <= #completely delivered replies + 1, no query after the server closed/aborted, returned message is the reply to the caller's own query (name, id, serial), no reply used twice, "+
 		"wire bytes free of poison/uninit patterns, return by deadline, ownership audit", nCalls, depth, bound)
 	st := runExplore(t, rep, bound, func(c *choice.Ctx) { c06Scenario(c, rep, "C06", nCalls, depth) })
